@@ -34,20 +34,29 @@ Lemma take_text_local s tx rest : take_text s = Some (tx, rest) ->
   exists pre, s = pre ++ rest /\ 1 <= length pre /\ forall t, take_text (pre ++ t) = Some (tx, t).
 Proof. apply tscan_local. Qed.
 
-(* ---------- (a) + (b): the tokenizer ---------- *)
-Theorem next_command_local s c rest : next_command s = Some (c, rest) ->
-  exists pre, s = pre ++ rest /\ 1 <= length pre /\ forall t, next_command (pre ++ t) = Some (c, t).
+(* ---------- (a) + (b): the tokenizer, syntactic (next_command) and as the editor reads (parse) ---------- *)
+Lemma with_text_local {A} (g : list chr -> A) r1 c rest :
+  match take_text r1 with Some (tx, rest') => Some (g tx, rest') | None => None end = Some (c, rest) ->
+  exists p2, r1 = p2 ++ rest /\ 1 <= length p2 /\
+    forall t, match take_text (p2 ++ t) with Some (tx, rest') => Some (g tx, rest') | None => None end = Some (c, t).
 Proof.
-  unfold next_command. destruct (scan P0 s) as [[h r1]|] eqn:S1; [|discriminate].
+  destruct (take_text r1) as [[tx r2]|] eqn:S2; [|discriminate]. intros E. injection E as <- <-.
+  destruct (take_text_local _ _ _ S2) as (p2 & -> & L2 & T2). exists p2. split; [reflexivity|]. split; [exact L2|]. intros t. now rewrite T2.
+Qed.
+
+Lemma complete_local f s c rest : complete f s = Some (c, rest) ->
+  exists pre, s = pre ++ rest /\ 1 <= length pre /\ forall t, complete f (pre ++ t) = Some (c, t).
+Proof.
+  unfold complete. destruct (scan P0 s) as [[h r1]|] eqn:S1; [|discriminate].
   destruct (scan_local _ _ _ _ S1) as (p1 & -> & L1 & T1).
   destruct h as [c0 chg|key|y a1 a2 tg|chg| |n|n r|].
   - intros E. injection E as <- <-. exists p1. repeat split; auto. intros t. now rewrite T1.
-  - destruct (take_text r1) as [[tx r2]|] eqn:S2; [|discriminate]. intros E. injection E as <- <-.
-    destruct (take_text_local _ _ _ S2) as (p2 & -> & L2 & T2). exists (p1 ++ p2).
-    split; [now rewrite app_assoc|]. split; [rewrite app_length; lia|]. intros t. rewrite <- app_assoc, T1, T2. reflexivity.
-  - destruct (take_text r1) as [[tx r2]|] eqn:S2; [|discriminate]. intros E. injection E as <- <-.
-    destruct (take_text_local _ _ _ S2) as (p2 & -> & L2 & T2). exists (p1 ++ p2).
-    split; [now rewrite app_assoc|]. split; [rewrite app_length; lia|]. intros t. rewrite <- app_assoc, T1, T2. reflexivity.
+  - intros E. destruct (with_text_local _ _ _ _ E) as (p2 & -> & L2 & T2). exists (p1 ++ p2).
+    split; [now rewrite app_assoc|]. split; [rewrite app_length; lia|]. intros t. rewrite <- app_assoc, T1. apply T2.
+  - destruct (f a1 a2 tg) eqn:Ef.
+    + intros E. injection E as <- <-. exists p1. repeat split; auto. intros t. now rewrite T1, Ef.
+    + intros E. destruct (with_text_local _ _ _ _ E) as (p2 & -> & L2 & T2). exists (p1 ++ p2).
+      split; [now rewrite app_assoc|]. split; [rewrite app_length; lia|]. intros t. rewrite <- app_assoc, T1, Ef. apply T2.
   - intros E. injection E as <- <-. exists p1. repeat split; auto. intros t. now rewrite T1.
   - intros E. injection E as <- <-. exists p1. repeat split; auto. intros t. now rewrite T1.
   - intros E. injection E as <- <-. exists p1. repeat split; auto. intros t. now rewrite T1.
@@ -55,9 +64,138 @@ Proof.
   - intros E. injection E as <- <-. exists p1. repeat split; auto. intros t. now rewrite T1.
 Qed.
 
+Theorem next_command_local s c rest : next_command s = Some (c, rest) ->
+  exists pre, s = pre ++ rest /\ 1 <= length pre /\ forall t, next_command (pre ++ t) = Some (c, t).
+Proof. apply complete_local. Qed.
+
 Corollary next_command_prefix s c rest : next_command s = Some (c, rest) ->
   exists pre, s = pre ++ rest /\ 1 <= length pre.
 Proof. intros H. destruct (next_command_local _ _ _ H) as (pre & A & B & _). now exists pre. Qed.
 
 Corollary next_command_shorter s c rest : next_command s = Some (c, rest) -> length rest < length s.
 Proof. intros H. destruct (next_command_prefix _ _ _ H) as (pre & -> & L). rewrite app_length. lia. Qed.
+
+Lemma parse_local rows e s c rest : parse rows e s = Some (c, rest) ->
+  exists pre, s = pre ++ rest /\ 1 <= length pre /\ forall t, parse rows e (pre ++ t) = Some (c, t).
+Proof. apply complete_local. Qed.
+
+(* the editor reads the head of the input as the syntactic tokenizer does, unless a `c` meets a failing motion *)
+Definition failing_change (rows : Z) (e : est) (c : command) : bool :=
+  match c with KCmd (COp _ a1 Oc a2 t _) _ => target_fails rows e a1 a2 t | _ => false end.
+
+Lemma parse_next_command rows e s c rest : next_command s = Some (c, rest) -> failing_change rows e c = false ->
+  parse rows e s = Some (c, rest).
+Proof.
+  unfold parse, next_command, complete. destruct (scan P0 s) as [[h r1]|]; [|discriminate].
+  destruct h as [c0 chg|key|y a1 a2 tg|chg| |n|n r|]; try (intros E _; exact E).
+  destruct (take_text r1) as [[tx r2]|]; [|discriminate]. intros E. injection E as <- <-. cbn [failing_change].
+  now intros ->.
+Qed.
+
+(* (c) the known exception: the head of `c` + failing motion is a command by itself; the typed text stays *)
+Lemma parse_failing_change rows e s y a1 a2 t rest : scan P0 s = Some (HChange y a1 a2 t, rest) ->
+  target_fails rows e a1 a2 t = true -> parse rows e s = Some (KCmd (COp y a1 Oc a2 t []) true, rest).
+Proof. intros S F. unfold parse, complete. now rewrite S, F. Qed.
+
+(* ---------- vi_exec ---------- *)
+Lemma vi_exec_bound rows v s v' k a : vi_exec rows v s = (v', k, a) -> k <= length s /\ (s <> [] -> 1 <= k).
+Proof.
+  unfold vi_exec. destruct (vi_est v) as [e|].
+  - destruct (parse rows e s) as [[c rest]|] eqn:P.
+    + destruct (parse_local _ _ _ _ _ P) as (pre & -> & L & _). destruct (apply_cmd rows v e c) as [v1 a1].
+      intros E. injection E as <- <- <-. rewrite app_length. split; lia.
+    + intros E. injection E as <- <- <-. split; [lia|]. destruct s; [congruence|cbn; lia].
+  - intros E. injection E as <- <- <-. split; [lia|]. destruct s; [congruence|cbn; lia].
+Qed.
+
+(* vi_exec never inspects the queue beyond the keys it consumed *)
+Theorem vi_exec_local rows v s v' k a : vi_exec rows v s = (v', k, a) -> vi_est v' <> None ->
+  forall t, vi_exec rows v (firstn k s ++ t) = (v', k, a).
+Proof.
+  unfold vi_exec. destruct (vi_est v) as [e|] eqn:Ev.
+  - destruct (parse rows e s) as [[c rest]|] eqn:P.
+    + destruct (parse_local _ _ _ _ _ P) as (pre & -> & L & T). destruct (apply_cmd rows v e c) as [v1 a1] eqn:A.
+      intros E _ t. injection E as <- <- <-.
+      assert (K : length (pre ++ rest) - length rest = length pre) by (rewrite app_length; lia).
+      rewrite K, firstn_app, firstn_all, Nat.sub_diag. cbn [firstn]. rewrite app_nil_r, T, A.
+      rewrite app_length. repeat f_equal. lia.
+    + intros E N. injection E as <- <- <-. now cbn in N.
+  - intros E N. injection E as <- <- <-. congruence.
+Qed.
+
+(* the number of keys a command takes is a function of the keys alone, in every state in which it is
+   not a `c` whose motion fails: the keys of one command are read as that one command again *)
+Theorem vi_exec_syntax_directed rows v e pre c t : vi_est v = Some e -> next_command pre = Some (c, []) ->
+  failing_change rows e c = false ->
+  vi_exec rows v (pre ++ t) = (fst (apply_cmd rows v e c), length pre, snd (apply_cmd rows v e c)).
+Proof.
+  intros Ev N F. destruct (next_command_local _ _ _ N) as (p & E & _ & T). rewrite app_nil_r in E. subst p.
+  unfold vi_exec. rewrite Ev, (parse_next_command rows e _ _ _ (T t) F).
+  destruct (apply_cmd rows v e c) as [v1 a1]. cbn [fst snd]. rewrite app_length. repeat f_equal. lia.
+Qed.
+
+(* ---------- running a program = folding ViDefs.exec over its tokenisation ---------- *)
+Notation vrun rows := (run (vi_exec rows)).
+
+Lemma step_stream rows (s : st N vis) v' k a : vi_exec rows (ed s) (stream (q s)) = (v', k, a) ->
+  (a = ANone \/ a = AChange) ->
+  ed (step (vi_exec rows) s) = v' /\ stream (q (step (vi_exec rows) s)) = skipn k (stream (q s)) /\
+  fits (vi_exec rows) s = true.
+Proof.
+  intros E A. unfold step, fits. rewrite E.
+  destruct (read_n_stream N k (snd (term_cmd (q s)))) as [S1 _].
+  destruct (reset_stream N (q s)) as (R1 & _). rewrite R1 in S1.
+  destruct A as [-> | ->]; cbn [ed q]; auto.
+Qed.
+
+(* outside the model nothing more happens *)
+Lemma run_out rows fuel (s : st N vis) : vi_est (ed s) = None -> length (stream (q s)) <= fuel ->
+  vrun rows fuel s = Some (ed s).
+Proof.
+  intros O L. destruct fuel as [|f]; cbn [run].
+  - destruct (stream (q s)); [reflexivity|cbn in L; lia].
+  - destruct (stream (q s)) as [|c r] eqn:Es; [reflexivity|].
+    assert (X : vi_exec rows (ed s) (stream (q s)) = (ed s, length (stream (q s)), ANone)) by (unfold vi_exec; now rewrite O).
+    destruct (step_stream rows s _ _ _ X (or_introl eq_refl)) as (A & B & C). rewrite C.
+    rewrite skipn_all in B. destruct f; cbn [run]; rewrite B, A; reflexivity.
+Qed.
+
+Theorem run_is_exec rows : forall fuel keys ks cs e (s : st N vis) lr n,
+  tokens fuel keys = Some ks -> cmds_of ks = Some cs -> changes_ok rows cs e = true ->
+  stream (q s) = keys -> ed s = mk_vis (Some e) lr -> length keys <= n ->
+  vrun rows n s = Some (mk_vis (exec rows cs e) lr).
+Proof.
+  induction fuel as [|f IH]; intros keys ks cs e s lr n T C O Sq Ed Ln.
+  - destruct keys; [|discriminate]. injection T as <-. injection C as <-. destruct n; cbn [run]; rewrite Sq, Ed; reflexivity.
+  - destruct keys as [|c0 r0] eqn:EK.
+    { cbn [tokens] in T. injection T as <-. injection C as <-. destruct n; cbn [run]; rewrite Sq, Ed; reflexivity. }
+    rewrite <- EK in *. assert (NE : keys <> []) by (rewrite EK; discriminate).
+    assert (T' : match next_command keys with
+                 | Some (c, rest) => match tokens f rest with Some cs => Some (c :: cs) | None => None end
+                 | None => None end = Some ks) by (rewrite EK in *; exact T). clear T.
+    destruct (next_command keys) as [[k rest]|] eqn:NC; [|discriminate].
+    destruct (tokens f rest) as [ks'|] eqn:TR; [|discriminate]. injection T' as <-.
+    destruct (next_command_local _ _ _ NC) as (pre & Ek & Lp & _).
+    assert (LEN : length keys = length pre + length rest) by (rewrite Ek; apply app_length).
+    destruct n as [|m]; [lia|]. cbn [run]. rewrite Sq. destruct keys as [|c1 r1] eqn:EK2; [congruence|]. rewrite <- EK2 in *.
+    destruct k as [c chg|chg| |nn|nn r|]; cbn [cmds_of] in C; try discriminate.
+    + destruct (cmds_of ks') as [cs'|] eqn:C'; [|discriminate]. injection C as <-.
+      cbn [changes_ok] in O. apply andb_prop in O as [O1 O2].
+      assert (F : failing_change rows e (KCmd c chg) = false).
+      { cbn [failing_change]. destruct c; try reflexivity. destruct op; try reflexivity. now apply negb_true_iff in O1. }
+      assert (X : vi_exec rows (ed s) (stream (q s)) = (mk_vis (exec1 rows c e) lr, length pre, act_of chg)).
+      { rewrite Sq, Ed. unfold vi_exec. cbn [vi_est]. rewrite (parse_next_command rows e _ _ _ NC F). cbn [apply_cmd vi_lastreg].
+        repeat f_equal. lia. }
+      destruct (step_stream rows s _ _ _ X) as (A & B & Fi); [destruct chg; cbn; auto|].
+      rewrite Sq, Ek, skipn_app, skipn_all, Nat.sub_diag in B. cbn [skipn app] in B.
+      rewrite Fi. cbn [exec].
+      destruct (exec1 rows c e) as [e'|] eqn:X1.
+      * apply (IH rest ks' cs' e' _ lr m TR C' O2 B A). lia.
+      * rewrite run_out; [now rewrite A|now rewrite A|rewrite B; lia].
+    + assert (X : vi_exec rows (ed s) (stream (q s)) = (mk_vis (Some e) lr, length pre, ANone)).
+      { rewrite Sq, Ed. unfold vi_exec. cbn [vi_est]. rewrite (parse_next_command rows e _ _ _ NC eq_refl). cbn [apply_cmd].
+        repeat f_equal. lia. }
+      destruct (step_stream rows s _ _ _ X (or_introl eq_refl)) as (A & B & Fi).
+      rewrite Sq, Ek, skipn_app, skipn_all, Nat.sub_diag in B. cbn [skipn app] in B.
+      rewrite Fi. apply (IH rest ks' cs e _ lr m TR C O B A). lia.
+Qed.
